@@ -235,6 +235,23 @@ class NestLeaf:
         return 'Nest%s' % ''.join(str(i) for i in self.path)
 
 
+class _Called:
+    """a plain callable (no glomit, not a type): logs that it was called and returns its target"""
+    def __init__(self, run, path):
+        self.run, self.path = run, list(path)
+
+    def __call__(self, target):
+        self.run.log.append({'p': self.path, 'what': 'call', 'v': None, 'raw': 'called'})
+        return target
+
+    def __repr__(self):
+        return 'called%s' % ''.join(str(i) for i in self.path)
+
+
+def call_leaf(run, path):
+    return _Called(run, path)
+
+
 class Mark:
     """logs that it ran"""
     def __init__(self, run, path):
@@ -349,6 +366,8 @@ def build(tree, run, path=(), index=None):
         s = Iter(child(0))
     elif k == 'consume':
         s = list
+    elif k == 'call':
+        s = call_leaf(run, path)
     elif k == 'probe':
         s = Probe(run, path)
     elif k == 'read':
